@@ -29,8 +29,11 @@ from props._sched import SchedStream, KF_LOST_TASK
 from props._skiptable import skip_table, handle_exception_table
 
 
+from props._multirun import MultiRunStream, fresh_context_table
+
+
 def tables(ctx):
-    return [skip_table(), handle_exception_table()]
+    return [skip_table(), handle_exception_table(), fresh_context_table()]
 
 
 class Sched(SchedStream):
@@ -99,5 +102,32 @@ TRUSTED_BASE = TRUSTED_BASE + CLI_TRUSTED
 RULE = RULE + "; " + CLI_RULE_ABORT
 
 
+class Again(MultiRunStream):
+    """the same built project (same suite / fixture-registry objects) run 2..3 times in one process, aborts / failures in
+    some runs only (harness/props/_multirun.py): every run is judged on its own"""
+    name = "C08.run.again"
+    prop = "C08"
+    profile = "basic"
+    oracles = ("C08",)
+    quick_cases = 90
+    quick_seconds = 18
+    p_interrupt = 0.15
+    corpus = list(W2.AGAIN_CORPUS)
+
+
+LEAN_MODULES = LEAN_MODULES + ["LccModel.Props.C08Again"]
+PROPS_FILES = PROPS_FILES + ["LccModel/Props/C08Again.lean"]
+NAMESPACES = dict(NAMESPACES, **{"LccModel/Props/C08Again.lean": "LccModel.C08Again"})
+TRUSTED_BASE = TRUSTED_BASE + ["several runs of one built project: harness/props/_multirun.py re-points the interpreter behind the built "
+                               "functions at each run's recorder (same Suite / Test / FixtureRegistry objects); Model/RunAgain.lean states "
+                               "what a process keeps between runs, tied to the code by the table freshContextTable"]
+RULE = RULE + ("; again stream: a generated project built ONCE and run 2..3 times in one process, 75 % of its failing acts guarded to "
+               "happen in one run only, an AbortSuite / AbortAllTests of an earlier run only in ~3 of 4 cases; keyboard interrupt (15 %) "
+               "in one of the runs; every run judged by the same oracles against the project it really executed")
+EXPLANATION = EXPLANATION + (" Several runs in one process (Props/C08Again): consecutive runs of one loaded project are as many independent "
+                             "runs from the initial state — the context flags of a run are no input of the next (extracted table "
+                             "freshContextTable), and keeping them would skip the suite again.")
+
+
 def streams(ctx):
-    return [Sched(), Run(), RunPT(), Cli()]
+    return [Sched(), Run(), RunPT(), Cli(), Again()]
